@@ -4,7 +4,7 @@
    Definitions only. *)
 From Coq Require Import String.
 From Coq Require Import QArith Qcanon.
-From PC Require Export Model.Circuit Model.Entropy Model.Parse Model.Random Model.Diag Model.Index Model.Poly.
+From PC Require Export Model.Circuit Model.Entropy Model.Parse Model.Random Model.Diag Model.Index Model.Poly Model.Sample.
 Open Scope Z_scope.
 
 Inductive val := VZ (z : Z) | VL (l : list val) | VE (code : Z).
@@ -150,12 +150,12 @@ Definition run (name : string) (a : val) : val :=
          eL eB ((fix go (t : tableau) (os : plist) : list bool :=
                    match os with [] => [] | o :: r => let '(t1, _, _, u) := measure1 t o 0 in u :: go t1 r end) (dTab a0) (dPlist a1))
   else if is name "expect" then eL VZ (expect (dTab a0) (dPlist a1))
-  else if is name "project" then eTab (project (dTab a0) (dL dStr a1))
+  else if is name "project" then eTab (project_c (dTab a0) (dL dStr a1))
   else if is name "projection_trace" then
          let '(t, z, h) := projection_trace (dTab a0) (dPlist a1) in VL [eTab t; eB z; eN h]
   else if is name "postselect" then
          let '(t, pr) := postselect1 (dTab a0) (dPauli a1) in VL [eTab t; VZ pr]
-  else if is name "stabilizer_state" then eOptE eTab (stabilizer_state (dN a0) (dPlist a1))
+  else if is name "stabilizer_state" then eOptE eTab (stabilizer_state_c (dN a0) (dPlist a1))
   else if is name "zero_state" then eTab (zero_state (dN a0))
   else if is name "mixed_state" then eTab (mixed_state (dN a0))
   else if is name "stabilizers" then ePlist (stabilizers (dTab a0))
@@ -213,6 +213,10 @@ Definition run (name : string) (a : val) : val :=
   else if is name "parse_dict" then eOptE ePauli (parse_dict (dN a0) (dL (fun v => (dZ (arg v 0), dZ (arg v 1))) a1))
   else if is name "repr" then eL VZ (repr_pauli (dPauli a0))
   else if is name "tokenize" then eL VZ (tokenize (dPauli a0))
+  else if is name "sample_rows" then ePlist (sample_rows (dTab a0) (dL dMask a1))
+  else if is name "density_terms" then ePlist (density_terms (dTab a0))
+  else if is name "snapshot" then
+         let '(t, outs, lp) := snapshot (dTab a0) (dTab a1) (dL dZ a2) in VL [eTab t; eL VZ outs; VZ lp]
   (* ---- polynomials ---- *)
   else if is name "poly_eval" then eObj (eval_expr 64 (dQ a0 * dQ a0)%Qc a1)   (* tol, expression *)
   else if is name "poly_trace_impl" then eOptE eCoef (trace_impl (dObj a0))
